@@ -30,13 +30,17 @@ type c02Stim struct {
 	Base  int    `json:"base"` // *read-base*, 0 = leave the default
 	FFmt  string `json:"ffmt"` // *read-default-float-format*, "" = leave the default
 	Full  string `json:"full"` // when Text is a truncation: the text it was cut from
+	// EOFWith: the stream reports io.EOF together with its last bytes (as the body of an HTTP
+	// response, io.LimitedReader or iotest.DataErrReader do) instead of with a further empty read
+	EOFWith bool `json:"eofwith"`
 }
 
 type c02Chunker struct {
-	data []byte
-	cuts []int
-	i    int
-	pos  int
+	data    []byte
+	cuts    []int
+	i       int
+	pos     int
+	eofWith bool
 }
 
 func (c *c02Chunker) Read(p []byte) (int, error) {
@@ -52,6 +56,9 @@ func (c *c02Chunker) Read(p []byte) (int, error) {
 	}
 	n := copy(p, c.data[c.pos:end])
 	c.pos += n
+	if c.eofWith && c.pos >= len(c.data) {
+		return n, io.EOF
+	}
 	return n, nil
 }
 
@@ -116,10 +123,10 @@ func c02(args []string) {
 		o := h.Try(func() slip.Object {
 			switch st.Entry {
 			case "stream":
-				code, _ := slip.ReadStream(&c02Chunker{data: data, cuts: st.Cuts}, s)
+				code, _ := slip.ReadStream(&c02Chunker{data: data, cuts: st.Cuts, eofWith: st.EOFWith}, s)
 				objs = show(code)
 			case "stream-one":
-				code, p := slip.ReadStream(&c02Chunker{data: data, cuts: st.Cuts}, s, true)
+				code, p := slip.ReadStream(&c02Chunker{data: data, cuts: st.Cuts, eofWith: st.EOFWith}, s, true)
 				objs = show(code)
 				if len(code) > 0 {
 					pos = append(pos, p)
@@ -169,7 +176,7 @@ func c02(args []string) {
 				}
 			case "clread":
 				// cl:read on an input stream that hands over the bytes in the requested pieces (one form)
-				s.Let(slip.Symbol("vstream"), slip.NewInputStream(&c02Chunker{data: data, cuts: st.Cuts}))
+				s.Let(slip.Symbol("vstream"), slip.NewInputStream(&c02Chunker{data: data, cuts: st.Cuts, eofWith: st.EOFWith}))
 				v := s.Eval(slip.List{slip.Symbol("read"), slip.Symbol("vstream"), nil,
 					slip.List{slip.Symbol("quote"), slip.Symbol("v-eof")}}, 0)
 				if v != slip.Symbol("v-eof") {
@@ -177,7 +184,7 @@ func c02(args []string) {
 				}
 			case "push":
 				ch := make(chan slip.Object, 1000)
-				slip.ReadStreamPush(&c02Chunker{data: data, cuts: st.Cuts}, s, ch)
+				slip.ReadStreamPush(&c02Chunker{data: data, cuts: st.Cuts, eofWith: st.EOFWith}, s, ch)
 				close(ch)
 				for x := range ch {
 					objs = append(objs, slip.ObjectString(x))
@@ -185,7 +192,7 @@ func c02(args []string) {
 			case "each":
 				f := &c02Each{got: &objs}
 				f.Self = f
-				slip.ReadStreamEach(&c02Chunker{data: data, cuts: st.Cuts}, s, f)
+				slip.ReadStreamEach(&c02Chunker{data: data, cuts: st.Cuts, eofWith: st.EOFWith}, s, f)
 			default:
 				panic("unknown entry " + st.Entry)
 			}
@@ -204,7 +211,7 @@ func c02(args []string) {
 		status := c02Status(o)
 		out.Emit(h.V{"t": st.ID, "text": h.CodePoints(st.Text), "cuts": st.Cuts, "entry": st.Entry,
 			"objs": objs, "objs0": objs0, "full": objsFull, "trunc": st.Full != "", "status": status, "status0": c02Status(o0), "pos": pos,
-			"base": st.Base, "ffmt": st.FFmt,
+			"base": st.Base, "ffmt": st.FFmt, "eofwith": st.EOFWith,
 			"msg": fmt.Sprintf("%.80s", o.Msg)})
 	})
 }
